@@ -33,6 +33,7 @@ from liquid2 import is_path_token
 from liquid2 import is_range_token
 from liquid2 import is_template_string_token
 from liquid2 import is_token_type
+from liquid2.exceptions import LiquidError
 from liquid2.exceptions import LiquidSyntaxError
 from liquid2.exceptions import LiquidTypeError
 from liquid2.exceptions import LiquidValueError
@@ -991,6 +992,11 @@ class Filter:
         except LiquidTypeError as err:
             err.token = self.token
             raise err
+        except LiquidError as err:
+            # An error raised by the filter itself knows nothing of where it is used.
+            if err.token is None:
+                err.token = self.token
+            raise
 
     async def evaluate_async(self, left: object, context: RenderContext) -> object:
         func = context.filter(self.name, token=self.token)
@@ -1010,6 +1016,11 @@ class Filter:
         except LiquidTypeError as err:
             err.token = self.token
             raise err
+        except LiquidError as err:
+            # An error raised by the filter itself knows nothing of where it is used.
+            if err.token is None:
+                err.token = self.token
+            raise
 
     def _check_reserved_keywords(
         self, context: RenderContext, keyword_args: dict[str, object]
